@@ -38,11 +38,14 @@ JOBS = {"quick": 1, "thorough": 16}
 
 STARTS = [Fraction(-2), Fraction(-1, 2), Fraction(0), Fraction(1, 8), Fraction(3)]
 
+CASE_TIMEOUT_S = 900
+AMBIENT_FILES = ['test_coordinates.py', 'test_base.py', 'test_blockreduce.py', 'test_projections.py', 'test_synthetic.py']
+
 
 def plan(tier):
     if tier == "quick":
         return collections.OrderedDict(lattice=41, random_line=40, long_line=30, grid=40, nested=12, profile=10, shape_spacing=10)
-    return collections.OrderedDict(lattice=81, sizes=12, random_line=800, long_line=600, grid=600, nested=120, profile=100, shape_spacing=100)
+    return collections.OrderedDict(lattice=81, sizes=12, random_line=800, long_line=600, grid=600, nested=120, profile=100, shape_spacing=100, ambient=5)
 
 
 # ----------------------------------------------------------------------
@@ -274,6 +277,10 @@ def _lattice_axes(tier):
 
 
 def run_case(run, tap, stream, index, rng):
+    if stream == "ambient":
+        from .. import core as _core
+
+        return _core.ambient_tests(run, AMBIENT_FILES[index])
     import verde
     import verde.coordinates as vc
 
